@@ -491,6 +491,9 @@ func (r *run) connect(op map[string]any, ln *Line) {
 	case "auth", "mixedFA", "mixedAF":
 		c := hs.Client{Kind: s(op, "kind"), K: s(op, "k"), Ck: s(op, "ck"), Chain: s(op, "chain"), Priv: b(op, "priv"), Nsig: s(op, "nsig"),
 			St: s(op, "stt"), Skip: b(op, "skip"), Pref: s(op, "pref"), Cn: b(op, "cn")}
+		if xp := s(op, "xp"); xp != world.None {
+			c.Extras, c.XPos = []string{"app-proto", "zz", "late-one"}, xp
+		}
 		switch s(op, "nid") {
 		case "own":
 			c.Nid = "N-" + c.K
@@ -500,7 +503,7 @@ func (r *run) connect(op map[string]any, ln *Line) {
 			c.Nid = "N-nobody"
 		}
 		// a `replay` client presents, byte for byte, the request (same nonce, same signatures) an identical earlier client sent
-		key := fmt.Sprint(c.Kind, c.K, c.Ck, c.Chain, c.Priv, c.Nsig, c.St, c.Skip, c.Nid, c.Pref, c.Cn)
+		key := fmt.Sprint(c.Kind, c.K, c.Ck, c.Chain, c.Priv, c.Nsig, c.St, c.Skip, c.Nid, c.Pref, c.Cn, c.XPos)
 		var res hs.AcceptResult
 		var cerr string
 		if prevSent, ok := r.sent[key]; ok && b(op, "replay") {
